@@ -568,3 +568,71 @@ def r_bitmask_defs(F, V):
             R.inst(key, "%s / BITMASK_STRIDE" % prim, "ok", True, where(b))
     R.floor("bitmask definitions judged", n, 5)
     return R
+
+
+# --------------------------------------------------------------------- R-ARG-ORDER
+
+ARG_ORDER_EXCEPTIONS = {
+    ("set::HashSet::is_superset", "set::HashSet::is_subset"): "a.is_superset(b) is defined as b.is_subset(a)",
+    ("set::HashSet::symmetric_difference", "set::HashSet::difference"): "a.difference(b) chained with b.difference(a) (the pair is checked by R-SET-DELEGATION)",
+    ("external_trait_impls::rayon::set::HashSet::par_is_superset", "external_trait_impls::rayon::set::HashSet::par_is_subset"): "a.par_is_superset(b) is defined as b.par_is_subset(a)",
+}
+
+
+def _arg_name(b, o):
+    """source-level name of what is passed: the last field projected, else the name of the (copied-from) local"""
+    if o["k"] not in ("copy", "move"):
+        return None
+    src = o["p"]
+    for _ in range(6):
+        flds = [e.get("name") for e in src.get("proj", []) if e["k"] == "field"]
+        if flds:
+            return flds[-1]
+        nm = b.locals[src["l"]].get("name")
+        if nm:
+            return nm
+        d = b.single_def(src["l"])
+        if not d or d[0] != "stmt" or d[3]["k"] != "assign":
+            return None
+        rv = d[3]["rv"]
+        src = rv.get("op", {}).get("p") if rv["k"] in ("use", "cast") else rv.get("p") if rv["k"] in ("ref", "rawptr") else None
+        if src is None:
+            return None
+    return None
+
+
+def r_arg_order(F, V):
+    """Swapped same-typed arguments: at every resolved call of a crate function, a value whose source-level name is the name
+    of ANOTHER parameter of the same type (e.g. `index` passed as `hash`, `other` passed as `self`) is a swap, unless the
+    pair (caller, callee) is a listed intentional one."""
+    R = Result("R-ARG-ORDER", F.cfg)
+    n = 0
+    for p, b in F.bodies.items():
+        for i, t in b.calls():
+            cp = callee_path(t)
+            cb = F.bodies.get(cp)
+            if cb is None:
+                continue
+            k = min(cb.arg_count, len(t["args"]))
+            if k < 2:
+                continue
+            pn = [cb.locals[q + 1].get("name") for q in range(k)]
+            pt = [cb.locals[q + 1]["ty"]["s"] for q in range(k)]
+            an = [_arg_name(b, a) for a in t["args"][:k]]
+            n += 1
+            for x in range(k):
+                for y in range(k):
+                    if x != y and an[x] and an[x] == pn[y] and an[x] != pn[x] and pt[x] == pt[y]:
+                        outer = p
+                        while "::{closure#" in outer:
+                            outer = outer.rsplit("::{closure#", 1)[0]
+                        key = "%s|->%s|%s" % (outer, cp.split("::")[-1], an[x])
+                        if (outer, cp) in ARG_ORDER_EXCEPTIONS:
+                            R.inst(key, "intentional: %s" % ARG_ORDER_EXCEPTIONS[(outer, cp)], "exempt", False, where(b, bb=i))
+                        else:
+                            R.violation(key, b, "`%s` is passed to %s in the position of its parameter `%s` although the callee has a parameter `%s` of the same type (%s): two same-typed arguments are swapped"
+                                        % (an[x], cp, pn[x], pn[y], pt[x]), line=line_of(b, bb=i))
+                            R.inst(key, "same-typed arguments swapped", "violation", True, where(b, bb=i))
+    R.info["call sites of crate functions with two or more parameters"] = n
+    R.floor("call sites examined", n, 300)
+    return R
